@@ -187,7 +187,7 @@ var c09OutcomeNames = []string{
 	"advance: >=1 address expired", "advance: record dropped with last address", "advance: nothing expired",
 	"gc: collected >=1 entry (mem)", "gc: collected >=1 entry (ds)", "gc: nothing to collect",
 	"reopen: with addresses", "reopen: empty", "read: datastore book state changed", "read: pure",
-	"eviction tie resolved by observation",
+	"eviction tie resolved by observation", "eviction tie not resolvable by observation: branch not extended",
 }
 
 var c09Outcomes [64]atomic.Int64
@@ -199,7 +199,7 @@ func c09Out(name string) {
 			return
 		}
 	}
-	panic("c09: unknown outcome class " + name)
+	c09Outcomes[len(c09Outcomes)-1].Add(1) // unknown class (harness slip): counted, never fatal
 }
 
 // ---------- apply + check ----------
@@ -208,13 +208,23 @@ var c09StoreName = [2]string{"mem", "ds"}
 
 // pick the legal successor model that matches what the book shows (observation-resolved nondeterminism: eviction
 // victims on expiry ties). Returns false when no legal successor matches.
-func c09Pick(cands []c09Model, p int, seen uint8) (c09Model, bool) {
+func c09Pick(cands []c09Model, p int, seen uint8) (m c09Model, ok, ambiguous bool) {
 	for _, c := range cands {
 		if c.live(p) == seen {
-			return c, true
+			if ok && c != m {
+				// two legal successors show the same addresses but differ inside (TTL class of a re-inserted
+				// address): the observation cannot tell which one the book took
+				ambiguous = true
+			}
+			if !ok {
+				m, ok = c, true
+			}
 		}
 	}
-	return cands[0], false
+	if !ok {
+		m = cands[0]
+	}
+	return
 }
 
 // c09Apply applies one operation to both books and to the models. full=false is used while a history PREFIX is
@@ -222,7 +232,7 @@ func c09Pick(cands []c09Model, p int, seen uint8) (c09Model, bool) {
 // level-synchronous BFS): the books and models are advanced, observations are made only where the model needs
 // them (eviction ties), and nothing is checked.
 func c09Apply(in *c09Inst, op c09Op, full bool) error {
-	if in.dead != "" {
+	if in.dead != "" || in.ambig {
 		return nil
 	}
 	u := c09U
@@ -384,7 +394,8 @@ func c09Apply(in *c09Inst, op c09Op, full bool) error {
 			seen[0], seen[1] = in.observeAddrs(op.p)
 		}
 		for s := range in.m {
-			m, _ := c09Pick(cands[s], op.p, seen[s])
+			m, _, amb := c09Pick(cands[s], op.p, seen[s])
+			in.ambig = in.ambig || amb
 			m.expire(now)
 			in.m[s] = m
 		}
@@ -398,9 +409,15 @@ func c09Apply(in *c09Inst, op c09Op, full bool) error {
 
 	// follow the books where the specification is set-valued, then drop what has expired
 	for s := range in.m {
-		m, ok := c09Pick(cands[s], op.p, in.obs[s].addrs[op.p])
+		m, ok, amb := c09Pick(cands[s], op.p, in.obs[s].addrs[op.p])
 		if len(cands[s]) > 1 && ok {
 			c09Out("eviction tie resolved by observation")
+		}
+		if amb {
+			// this step is still checked (all matching successors show the same answers now); the branch below
+			// it is not followed, because the model could be following the wrong successor
+			in.ambig = true
+			c09Out("eviction tie not resolvable by observation: branch not extended")
 		}
 		m.expire(now)
 		in.m[s] = m
@@ -661,6 +678,9 @@ func c09Key(in *c09Inst) string {
 	if in.dead != "" {
 		return "dead:" + in.dead
 	}
+	if in.ambig {
+		return fmt.Sprintf("ambiguous eviction tie #%d", c09Ambig.Add(1))
+	}
 	ms, _ := in.memSnap()
 	dss, _ := in.dsSnap()
 	now := in.clk.now
@@ -670,6 +690,7 @@ func c09Key(in *c09Inst) string {
 // ---------- driver ----------
 
 var c09Dead atomic.Pointer[string]
+var c09Ambig atomic.Int64
 
 func c09Spec(t *testing.T, cfg c09Cfg) *seqmc.Spec[*c09Inst, c09Op] {
 	ops := c09Alphabet(cfg)
@@ -689,7 +710,7 @@ func c09Spec(t *testing.T, cfg c09Cfg) *seqmc.Spec[*c09Inst, c09Op] {
 			in.close()
 		},
 		Ops: func(in *c09Inst) []c09Op {
-			if in.dead != "" {
+			if in.dead != "" || in.ambig {
 				return nil
 			}
 			return ops
